@@ -16,6 +16,7 @@
 import AITB.Model.Num
 import AITB.Model.Factored
 import AITB.Model.VE
+import AITB.Model.FactoredAlg
 namespace AITB.FLP
 open AITB.Factored AITB.VE
 
@@ -141,24 +142,17 @@ def sumNat : List Nat → Nat
   | [] => 0
   | q :: qs => q + sumNat qs
 
-/-- `startIds_[feature][actionId]` -/
-def DNode.startId (S : List Nat) (nd : DNode) (aid : Nat) : Nat :=
-  sumNat ((nd.parents.take aid).map (fun p => spacePartial p S))
+/-- the DDN as `AITB.Factored` (property C14) models it: graph of parent sets + one transition matrix per state factor -/
+def toGraph (S A : List Nat) (ddn : List DNode) : DDNGraph := ⟨S, A, ddn.map (fun nd => ⟨nd.agents, nd.parents⟩)⟩
+def toT (ddn : List DNode) : List Mat := ddn.map (·.T)
 
-/-- `transitions[i](graph.getId(i, s, a), v)` -/
-def DNode.prob (S A : List Nat) (nd : DNode) (s a : List Nat) (v : Nat) : Rat :=
-  let aid := toIndexPartial nd.agents A a
-  let feats := nd.parents.getD aid []
-  (nd.T.getD (nd.startId S aid + toIndexPartial feats S s) []).getD v 0
+/-- `DDN::getTransitionProbability(s, a, s1)` (C14's model `ddnProb`: running product over all features of
+    `transitions[i](graph.getId(i, s, a), s1[i])`) -/
+def transP (S A : List Nat) (ddn : List DNode) (s a s1 : List Nat) : Rat := ddnProb (toGraph S A ddn) (toT ddn) s a s1
 
-/-- `DDN::getTransitionProbability(s, a, s1)` -/
-def transP (S A : List Nat) : List DNode → List Nat → List Nat → List Nat → Rat
-  | nd :: ds, s, a, v :: s1 => nd.prob S A s a v * transP S A ds s a s1
-  | _, _, _, _ => 1
-
-/-- Σ_{s'} P(s'|s,a) f(s') over the whole joint state space -/
+/-- Σ_{s'} P(s'|s,a) f(s') over the whole joint state space (joint states enumerated by index, `toFactors`) -/
 def expect (S A : List Nat) (ddn : List DNode) (f : List Nat → Rat) (s a : List Nat) : Rat :=
-  sumQ ((allActs S).map (fun s1 => transP S A ddn s a s1 * f s1))
+  sumTo (space S) (fun id => transP S A ddn s a (toFactors S id) * f (toFactors S id))
 
 /-! ## factored-MDP linear programming: the flat problem
 
@@ -179,7 +173,7 @@ def mdpFlatRows (S A : List Nat) (ddn : List DNode) (R : List BasisM) (γ : Rat)
 
 /-- flat objective: uniform state-relevance weights, c_k = Σ_s h_k(s) / |S| -/
 def mdpFlatObj (S : List Nat) (h : List Basis) : List Rat :=
-  h.map (fun hk => sumQ ((allActs S).map (hk.at S)) / ((space S : Nat) : Rat))
+  h.map (fun hk => sumTo (space S) (fun id => hk.at S (toFactors S id)) / ((space S : Nat) : Rat))
 
 /-- the objective as the code states it: c_k = h_k.values.sum() / h_k.values.size() -/
 def mdpStatedObj (h : List Basis) : List Rat :=
